@@ -4,6 +4,7 @@ use crate::models::*;
 use crate::util::*;
 use core::mem::{ManuallyDrop, MaybeUninit};
 use hpke::generic_array::GenericArray;
+use hpke::aead::ExportOnlyAead;
 use hpke::kdf::{HkdfSha256, HkdfSha384, HkdfSha512};
 use hpke::kem::{DhP384HkdfSha384, DhP521HkdfSha512, Kem as KemTrait, SharedSecret, ToyKemLin, X25519HkdfSha256};
 use hpke::verif_hooks::*;
@@ -129,5 +130,29 @@ pub fn c16_l3_setup_sender_ledger() {
         drop(res);
         assert!(ledger::read(ledger::AEAD_NONCE).1 == 0 && ledger::read(ledger::AEAD_NONCE).0 >= 1);
         assert!(ledger::read(ledger::EXPORTER_SECRET).1 == 0 && ledger::read(ledger::EXPORTER_SECRET).0 >= 1);
+    }
+}
+
+//@h name=c16_l2_ctx_drop_exportonly tier=quick mode=full timeout=900 desc="dropping an export-only context (128-byte base nonce, the largest secret buffer the library has) wipes ALL of the base nonce and the exporter secret" bounds="all 128 nonce bytes and the 8-byte exporter secret symbolic; sender role; unwind 132"
+#[kani::proof]
+#[kani::unwind(132)]
+#[kani::stub(zeroize::optimization_barrier, noop_barrier)]
+pub fn c16_l2_ctx_drop_exportonly() {
+    let base: [u8; 128] = kani::any();
+    let exp: [u8; 8] = kani::any();
+    let mut ctx = ManuallyDrop::new(ctx_s_from_parts::<ExportOnlyAead, LinKdf, ToyKemLin>(&[], &base, &exp, kani::any(), kani::any()));
+    let pn = ctx.verif_base_nonce().as_ptr();
+    let pe = ctx.verif_exporter_secret().as_ptr();
+    assert!(ctx.verif_base_nonce().len() == 128 && ctx.verif_exporter_secret().len() == 8);
+    unsafe { ManuallyDrop::drop(&mut ctx) };
+    let mut i = 0;
+    while i < 128 {
+        assert!(unsafe { *pn.add(i) } == 0, "base nonce byte survives drop");
+        i += 1;
+    }
+    let mut j = 0;
+    while j < 8 {
+        assert!(unsafe { *pe.add(j) } == 0, "exporter secret byte survives drop");
+        j += 1;
     }
 }
